@@ -324,4 +324,5 @@ func main() {
 	writeIfChanged(filepath.Join(outDir, "Gates.lean"), genGates(repoRoot))
 	writeIfChanged(filepath.Join(outDir, "Version.lean"), genVersion(repoRoot)) // C13 (extract/version.go): never exits
 	writeIfChanged(filepath.Join(outDir, "ObsApp.lean"), genObsApp(repoRoot)) // C08 app layer (extract/obsapp.go): never exits
+	writeIfChanged(filepath.Join(outDir, "Routing.lean"), genRouting(repoRoot)) // C01 / C11 (extract/routing.go): never exits
 }
